@@ -80,7 +80,8 @@ class Probe:
         self.depth = 0
         self.invoke_hook = None  # callable(probe, fn, self value, args) -> value | NotImplemented, asked before any crate function is entered
         self.intercept = {}  # fn key -> callable(args) -> value
-        self.mhooks = {}  # method name -> callable(probe, call expr, env) -> value | NotImplemented (nothing evaluated yet)
+        self.mhooks = {}
+        self.callhooks = {}  # last path segment of a called function -> hook(probe, call node, env) -> value | NotImplemented
         self.lenient = False
         self.opaque_log = []
         self.opaque_calls = set()  # fn keys left uninterpreted: a call yields Opq(expr=("call", key, args))
@@ -442,7 +443,10 @@ class Probe:
                 if b is None:
                     raise NoEval("closure parameter")
                 env2.update(b)
-            return self.ev(node["body"], env2)
+            try:
+                return self.ev(node["body"], env2)
+            except _Return as r_:
+                return r_.v  # `return` inside a closure leaves the closure
         if isinstance(fv, tuple) and fv and fv[0] == "fnref_path":
             b = self.builtin(fv[1]["segs"], list(args))
             if b is not NotImplemented:
@@ -514,6 +518,10 @@ class Probe:
         if f["k"] != "path":
             raise NoEval("call")
         segs = f["segs"]
+        if segs[-1] in self.callhooks:
+            r = self.callhooks[segs[-1]](self, e, env)
+            if r is not NotImplemented:
+                return r
         if self.lenient and len(segs) >= 2 and segs[-1][:1].isupper() and self.find_fn(segs) is None:
             # arguments of an enum constructor that cannot be evaluated stay unknown (the caller compares the others)
             args = []
@@ -663,6 +671,9 @@ class Probe:
             if recv is None or recv[0] == "err":
                 raise Panic("%s() on %s" % (m, "None" if recv is None else "Err"))
             return recv[1]
+        if isinstance(recv, tuple) and len(recv) == 3 and recv[0] == "enum" and str(recv[1]).startswith("ErrMode::") and m == "into_inner" and not e["args"]:
+            # winnow: the error inside Backtrack / Cut, nothing for Incomplete
+            return ("some", recv[2][0]) if recv[1] in ("ErrMode::Backtrack", "ErrMode::Cut") and recv[2] else None
         if isinstance(recv, Opq):
             if m in ("clone", "to_owned", "borrow", "as_ref") and not e["args"]:
                 return recv
@@ -762,6 +773,27 @@ class Probe:
         if m == "chars" and isinstance(recv, str) and not e["args"]:
             return list(recv)
         if m in ("chars", "as_str", "collect", "into_iter", "iter", "by_ref") and isinstance(recv, list):
+            return recv
+        if isinstance(recv, list) and m == "flatten" and not e["args"]:
+            out = []
+            for x in recv:
+                if isinstance(x, list):
+                    out += x
+                elif x is None:
+                    continue
+                elif isinstance(x, tuple) and x and x[0] == "some":
+                    out.append(x[1])
+                else:
+                    raise NoEval("flatten over %r" % (x,))
+            return out
+        if isinstance(recv, list) and m == "enumerate" and not e["args"]:
+            return [[i_, x] for i_, x in enumerate(recv)]
+        if isinstance(recv, list) and m in ("as_slice", "to_vec", "as_mut_slice", "peekable", "fuse") and not e["args"]:
+            return recv
+        if isinstance(recv, list) and m == "inspect" and len(e["args"]) == 1:
+            fv = self.ev(e["args"][0], env)
+            for x in recv:
+                self.apply(fv, [x])
             return recv
         if isinstance(recv, list) and m in ("map", "filter", "reduce", "filter_map", "for_each"):
             fv = self.ev(e["args"][0], env)
